@@ -474,12 +474,15 @@ class World(object):
         try:
             self.ctxt._active = False
             n = 0
-            while not self.baton.dead and n < 50:
-                self.baton.resume()
+            while not self.baton.dead and not self.baton.stalled and n < 50:
+                try:
+                    self.baton.resume()
+                except seams.ServerStall:
+                    break
                 n += 1
-            if not self.baton.dead:
-                raise RuntimeError("HARNESS-ERROR: server thread did not exit")
-            self.server.thread.join(5)
+            if self.baton.dead:
+                self.server.thread.join(5)
+            # a stalled server thread is abandoned (daemon thread); the stall itself was reported by the explorer
         finally:
             self.monitors = saved
             if Packet.MTU != self._old_mtu:
